@@ -379,6 +379,8 @@ def _run_check(prop, tier, seed, replay, info, work, t0):
             if len(samples) < 3 and len(c) < 600:
                 samples.append({'case': c, 'impl': iobs[:300], 'model_agrees': mobs == iobs or mobs == '-'})
             viol, mism = res[i]
+            if viol and 'kinds' in prop and viol[0] not in prop['kinds']:
+                viol = None      # a statement of another property evaluated by the same domain
             if viol:
                 if viol[0] in known_kinds:
                     known_hits.setdefault(viol[0], (c, viol[1]))
